@@ -548,10 +548,11 @@ func runHistCase(c *HistCase, prop string) (*caseOut, error) {
 	faultStep := -1
 	var s0, b0 []string
 	inTx := false
-	var planted []string   // C13: (path, content) pairs planted in the backup directory
-	foreignBackup := false // foreign content was planted in the backup directory (C13): Rollback may report it
-	forced := false        // a successful ForceBackup happened in this transaction (C17's scenario)
-	skipOracle := false    // the transaction left the domain of C01 by a use the properties exclude (ForceBackup of a directory)
+	var planted []string     // C13: (path, content) pairs planted in the backup directory
+	var plantedBase []string // C13: (path, content) pairs planted in directories the transaction created
+	foreignBackup := false   // foreign content was planted in the backup directory (C13): Rollback may report it
+	forced := false          // a successful ForceBackup happened in this transaction (C17's scenario)
+	skipOracle := false      // the transaction left the domain of C01 by a use the properties exclude (ForceBackup of a directory)
 	begin := func() {
 		s0 = blankDirTimes(e.rc.Dump(e.baseSub))
 		b0 = e.rc.Dump(e.bakSub)
@@ -560,6 +561,7 @@ func runHistCase(c *HistCase, prop string) (*caseOut, error) {
 		forced = false
 		foreignBackup = false
 		planted = nil
+		plantedBase = nil
 	}
 	viol := func(p, what string) {
 		// the snapshot oracles are reported under the property whose scenario this run exercises
@@ -748,6 +750,11 @@ func runHistCase(c *HistCase, prop string) (*caseOut, error) {
 					}
 				}
 			}
+			for k := 0; k+1 < len(plantedBase); k += 2 {
+				if got, err := os.ReadFile(e.rc.Root + e.baseSub + plantedBase[k]); err != nil || string(got) != plantedBase[k+1] {
+					viol("C13", fmt.Sprintf("the file %s, which no operation named (created by another actor inside a directory of the transaction), did not survive Rollback (%v)", plantedBase[k], err))
+				}
+			}
 			inTx = false
 			originals = nil
 		case st.Do == "reload":
@@ -780,7 +787,13 @@ func runHistCase(c *HistCase, prop string) (*caseOut, error) {
 				sub = e.bakSub
 			}
 			out.b.Add(tag, line("os.creat", "", modelRoot+sub+st.Arg[1], st.Arg[2]), line("ok", modelRoot+sub+st.Arg[1]))
-			if st.Arg[0] == "base" {
+			if st.Arg[0] == "base" && len(st.Arg) > 3 {
+				// a foreign file inside a directory the transaction created: Rollback cannot remove
+				// that directory (and says so); the file itself was never named and must survive
+				plantedBase = append(plantedBase, st.Arg[1], st.Arg[2])
+				skipOracle = true
+				originals = nil
+			} else if st.Arg[0] == "base" {
 				// the expected post-Rollback tree carries the external change
 				s0, _ = rebaselineExt(s0, blankDirTimes(e.rc.Dump(e.baseSub)), st.Arg[1])
 				originals = nil
@@ -947,6 +960,11 @@ type HistGen struct {
 	Swap       bool // a directory with tracked content is replaced by a symlink to another directory and the old paths are used again
 }
 
+// extNewDir: plant foreign files inside directories the transaction created (C13, restoreFile /
+// restoreSymlink must not remove them recursively).  Switched on together with the fix: commit that
+// replaces RemoveAll by Remove there.
+const extNewDir = false
+
 func genHistCase(r *RNG, g HistGen, umask int) *HistCase {
 	c := &HistCase{Kind: "hist", Layering: g.Layering, Umask: umask, Mode: "admissible"}
 	if g.Wild {
@@ -1104,7 +1122,18 @@ func genHistCase(r *RNG, g HistGen, umask int) *HistCase {
 				c.Steps = append(c.Steps, Step{Do: "reload"})
 			}
 			if g.Force && r.Chance(1, 4) {
-				c.Steps = append(c.Steps, Step{Do: "force", Arg: []string{pickPath(r, paths)}})
+				fp := pickPath(r, paths)
+				if r.Chance(1, 2) {
+					// a path this transaction has just touched (already tracked), …
+					fp = path.Clean("/" + op.A[0])
+					if (op.K == "rename" || op.K == "symlink") && r.Chance(1, 2) {
+						fp = path.Clean("/" + op.A[1])
+					}
+				}
+				if r.Chance(1, 3) {
+					fp = spellUnclean(r, fp) // … under another spelling of its name
+				}
+				c.Steps = append(c.Steps, Step{Do: "force", Arg: []string{fp}})
 			}
 			if g.Ext && r.Chance(1, 3) {
 				side := "base"
@@ -1114,6 +1143,8 @@ func genHistCase(r *RNG, g HistGen, umask int) *HistCase {
 				where := "@dir"
 				if side == "base" && r.Chance(1, 3) {
 					where = "/zzkeep"
+				} else if side == "base" && extNewDir && r.Chance(1, 3) {
+					where = "@newdir" // inside a directory the transaction itself created
 				}
 				c.Steps = append(c.Steps, Step{Do: "ext", Arg: []string{side, where, fmt.Sprintf("ext-%d", r.Intn(1000))}})
 			}
@@ -1425,8 +1456,25 @@ var filepathEvalSymlinks = filepath.EvalSymlinks
 
 // resolveExt turns the "@dir" placeholder into a fresh name inside a directory that exists now.
 func (e *histEnv) resolveExt(arg []string, i int, initial []Entry) []string {
-	if arg[1] != "@dir" {
+	if arg[1] != "@dir" && arg[1] != "@newdir" {
 		return arg
+	}
+	if arg[0] == "base" && arg[1] == "@newdir" {
+		// a real directory that did not exist when the case began (created through the BackupFS)
+		was := map[string]bool{}
+		for _, en := range initial {
+			was[en.Path] = true
+		}
+		d := e.rc.Dump(e.baseSub)
+		for k := 0; k+6 < len(d); k += 7 {
+			if d[k+1] == "dir" && !was[d[k]] && !strings.Contains(d[k], "zz") {
+				if fi, err := os.Lstat(e.rc.Root + e.baseSub + d[k]); err == nil && fi.IsDir() {
+					if rp, err := filepath.EvalSymlinks(e.rc.Root + e.baseSub + path.Dir(d[k])); err == nil && rp == e.rc.Root+e.baseSub+strings.TrimSuffix(path.Dir(d[k]), "/") {
+						return []string{arg[0], fmt.Sprintf("%s/zzforeign%d", d[k], i), arg[2], "newdir"}
+					}
+				}
+			}
+		}
 	}
 	if arg[0] == "base" {
 		// a directory that predates the transaction and is still a real directory
